@@ -231,7 +231,11 @@ pub fn check(case: &Case) -> Verdict {
                     note, plain, other.map(amt::show), amt::show(a)
                 ),
             }
-            if (t.unit_from_symbol)(sym) != Some(*unit) {
+            // the symbol resolves to the stored unit (to the first unit in
+            // iteration order carrying it where two units share a symbol)
+            let m = &c.models[*ty];
+            let want_unit = m.order.iter().copied().find(|&i| m.row.units[i].symbol == sym);
+            if (t.unit_from_symbol)(sym) != want_unit {
                 fail!("{}: symbol {:?} does not resolve to the stored unit", note, sym);
             }
             let neg = amt::sign_negative(a);
